@@ -252,7 +252,12 @@ func (f *frame) condString(c ssa.Value) string {
 	inner, neg := an.Not(c)
 	s := ""
 	if bo, ok := inner.(*ssa.BinOp); ok {
-		s = bo.Op.String() + "(" + f.sym(bo.X) + "," + f.sym(bo.Y) + ")"
+		op := bo.Op
+		if op == token.NEQ {
+			// a != b is rendered as !(a == b) so that rules see one spelling
+			op, neg = token.EQL, !neg
+		}
+		s = op.String() + "(" + f.sym(bo.X) + "," + f.sym(bo.Y) + ")"
 	} else {
 		s = f.sym(inner)
 	}
@@ -823,6 +828,22 @@ func (f *frame) event(in ssa.Instruction, k *an.Walk) {
 	case *ssa.Store:
 		if key, ok := f.memKey(x.Addr); ok {
 			f.mem[key] = f.sym(x.Val)
+		}
+		// s := make([]T, len(C)); for i, e := range C { s[i] = g(e) }  builds the same list as the append idiom
+		if ia, ok := x.Addr.(*ssa.IndexAddr); ok && an.IsRangeIdx(ia.Index) && k != nil && k.InLoop > 0 && len(f.loopOf) > 0 {
+			coll := f.loopOf[len(f.loopOf)-1]
+			if cur := f.sym(ia.X); cur == "make(len("+coll+"))" {
+				nv := "list(" + coll + " => " + f.sym(x.Val) + ")"
+				if ld, ok := ia.X.(*ssa.UnOp); ok && ld.Op == token.MUL {
+					if key, ok := f.memKey(ld.X); ok {
+						f.mem[key] = nv
+					}
+				}
+				f.cache[ia.X] = nv
+				if sv := an.Strip(ia.X); sv != ia.X {
+					f.cache[sv] = nv
+				}
+			}
 		}
 		// stores into fields of a packet node: Value / Data
 		if fa, ok := x.Addr.(*ssa.FieldAddr); ok {
